@@ -23,7 +23,15 @@ def cases(tier, seed):
     step = 40 if tier == "quick" else 4
     for mod, tag in ((c01, "C01"), (c04, "C04"), (c08, "C08"), (c09, "C09"), (c15, "C15"), (c07, "C07"), (c13, "C13"), (c03, "C03"), (c16, "C16")):
         cs = [c for c in mod.cases("quick", seed) if not c.get("inductive") and c.get("kind") not in ("tmax", "ema", "strategy")]
-        for c in cs[::step if len(cs) > 60 else max(1, step // 8)]:
+        picked = cs[::step if len(cs) > 60 else max(1, step // 8)]
+        if tag == "C16":
+            # the user-function route is chosen by predicate, not by stride: what the callback is handed must not alias the caller's arrays
+            first = {}
+            for c in cs:
+                if c.get("kind") == "apply" and not c.get("via"):
+                    first.setdefault((c.get("ncols"), c.get("masked"), bool(c.get("transform"))), c)
+            picked = picked + [c for c in first.values() if not any(c is q for q in picked)]
+        for c in picked:
             out.append({"src": tag, "case": c, "name": f"no input writes / no aliasing:{tag}:{c['name']}"})
     # the public reduction path: the returned Series/frame shares no buffer with inputs or with what the grouping retains
     asm = [c for c in ASM.cases(tier) if c["dtype"] == "float64"]
